@@ -329,6 +329,29 @@ def decodeAt (p : Prog) (pc : Nat) : Option Instr := do
     pure { op := o, a := x, b := opt.toNat, next := n1 + 1 }
   | _ => pure { op := o, next := pc + 1 }
 
+/-- The selection part of the `BIND` instruction (after the repeated-bind warning):
+`idx` is the constant index of the block type, `opt` the packed selector/target byte. -/
+def bindStep (p : Prog) (idx opt : Nat) (vm : VM) : Step :=
+  match constStr p idx with
+  | some bt =>
+    let sel := opt % 16
+    let tgt := opt / 16 * 16
+    let blocks := vm.result.filter (fun b => b.typ = bt)
+    if blocks.isEmpty then rtError p vm (str "bind: no blocks of type " ++ bt)
+    else if blocks.length ≠ 1 && sel = selOne then
+      rtError p vm (str "bind: found " ++ natDec blocks.length ++ str " blocks of type " ++ bt
+                    ++ str " but expected just 1")
+    else
+      let first := blocks.headD default
+      let last := blocks.getLastD default
+      if tgt = tgtStruct && (sel = selOne || sel = selFirst) then .next { vm with binding := some (.struct first) }
+      else if tgt = tgtStruct && sel = selLast then .next { vm with binding := some (.struct last) }
+      else if tgt = tgtSlice && sel = selAll then .next { vm with binding := some (.slice blocks) }
+      else if tgt = tgtSlice && (sel = selOne || sel = selFirst) then .next { vm with binding := some (.slice [first]) }
+      else if tgt = tgtSlice && sel = selLast then .next { vm with binding := some (.slice [last]) }
+      else rtError p vm (str "invalid bind target and selector :0x" ++ padLeft 2 32 (hexLower opt))
+  | none => .panic vm
+
 /-- Execute a decoded instruction.  `vm.pc` is still the offset of the opcode. -/
 def exec (p : Prog) (i : Instr) (vm0 : VM) : Step :=
   -- after the opcode byte has been read
@@ -437,26 +460,7 @@ def exec (p : Prog) (i : Instr) (vm0 : VM) : Step :=
       | none => some vm
     match warned with
     | none => .panic vm
-    | some vm =>
-    match constStr p i.a with
-    | some bt =>
-      let sel := i.b % 16
-      let tgt := i.b / 16 * 16
-      let blocks := vm.result.filter (fun b => b.typ = bt)
-      if blocks.isEmpty then rtError p vm (str "bind: no blocks of type " ++ bt)
-      else if blocks.length ≠ 1 && sel = selOne then
-        rtError p vm (str "bind: found " ++ natDec blocks.length ++ str " blocks of type " ++ bt
-                      ++ str " but expected just 1")
-      else
-        let first := blocks.headD default
-        let last := blocks.getLastD default
-        if tgt = tgtStruct && (sel = selOne || sel = selFirst) then .next { vm with binding := some (.struct first) }
-        else if tgt = tgtStruct && sel = selLast then .next { vm with binding := some (.struct last) }
-        else if tgt = tgtSlice && sel = selAll then .next { vm with binding := some (.slice blocks) }
-        else if tgt = tgtSlice && (sel = selOne || sel = selFirst) then .next { vm with binding := some (.slice [first]) }
-        else if tgt = tgtSlice && sel = selLast then .next { vm with binding := some (.slice [last]) }
-        else rtError p vm (str "invalid bind target and selector :0x" ++ padLeft 2 32 (hexLower i.b))
-    | none => .panic vm
+    | some vm => bindStep p i.a i.b vm
   | .RET =>
     if vm.stack.isEmpty then .halt vm .ok
     else .halt vm (.internal (str "internal error: non-empty stack on prog end; tos=" ++ natDec vm.stack.length))
